@@ -60,6 +60,19 @@ chk("C19", "dialsim", "exploration",
     TB + " porcupine v1.3.0; the identical-instants arm is sound but not replayable (synctest randomises same-instant timers).",
     "deterministic simulation under the race detector + porcupine linearizability check; generated URL tuples", "DESIGN.md 3 C19")
 
+chk("C10", "mboxsim", "exploration",
+    "The real mailbox.DirHandler runs on a simulated disk; generated operation histories (every sequence up to length 3 over a 16-operation alphabet in both modes, then seeded random histories of 10-60 operations, up to 300 in the thorough tier) over a small universe of MIDs, recipients and forwarder lists, with restarts (fresh handler on the same disk) and send-only mode, are compared step by step with a small executable mailbox model: return values, all four folder listings and counts, dedup answers, per-session deferral, CMS/P2P eligibility and absence of mailbox-private headers.",
+    "Trusted base: sim/simfs and the os/ioutil/log shims (validated differentially against the real os on a temp directory), the reference model. Single-threaded, so step-wise comparison is exact; no clock is involved.",
+    "model-based history exploration on a simulated disk (reference-model oracle)", "DESIGN.md 3 C10")
+chk("C11", "mboxsim", "fault_enumeration",
+    "For seeded mailbox states and one operation (ProcessInbound, AddOut, SetSent, SetUnread, Prepare) a pilot records the file-system calls; then the process is killed at every crash point - before and after each call and after every prefix length of each write (all up to 8 KB, boundaries + sample above) - only the simulated disk survives, a fresh DirHandler is started and the recovery invariants of the property are checked. A second arm injects ENOSPC with a short write instead of the crash.",
+    "Trusted base: sim/simfs crash model = process death (completed calls survive in order, the write in progress is torn at a byte; no power-loss reordering), validated shims.",
+    "crash-point enumeration on a simulated disk (process-death model) with recovery-invariant oracle", "DESIGN.md 3 C11")
+chk("C12", "mboxsim", "exploration",
+    "Narrow claim: hostile MIDs and Mid header values (path separators, dot-dot segments, absolute paths, empty, 300 bytes, non-ASCII, NUL, trailing dots) are fed to ProcessInbound / GetInboundAnswer / SetSent / SetDeferred of a DirHandler rooted at /sandbox/mbox next to decoy files; the simulated disk logs every call, so transient effects are seen too. Oracle: every applied mutating call names a cleaned path under the mailbox root; a cross-check compares the tree outside the mailbox before and after.",
+    "Trusted base: sim/simfs operation log and path cleaning, validated shims. No schedule matters; the simulator contributes the instrumented disk.",
+    "hostile-input exploration on an instrumented simulated disk (path-confinement oracle)", "DESIGN.md 3 C12")
+
 na = [
  ("C07", "pure function of the input bytes (codec interoperability): no schedule, clock, fault or second party for a simulator to control; see DESIGN.md section 4"),
  ("C09", "pure function of the message (serialisation round trip); reader chunking is absorbed by a bufio.Reader; see DESIGN.md section 4"),
